@@ -352,6 +352,10 @@ def judge(m, impl, mod):
     if m["kind"] == "ctl":
         il = ["ctl 0" if l == "ctl 0" else "ctl -22" for l in il]
     d = C.first_diff(il, ml)
+    # the guard of C13_text_partial decides what is a known finding: inside the guard the text must be the spec
+    gl = [l for l in mod[0] if l.startswith("guard ")]
+    if msg and m["kind"] == "T" and gl:
+        finding = F_RALIGN if gl[0] == "guard 0" else None
     if msg:
         return ("impl-monitor", msg, {"first_model_difference": d}, finding)
     if mod[1]:
